@@ -125,6 +125,24 @@ func (p *c20prop) Gen(kind string, idx int64, seed int64, tier string) core.Case
 	default:
 		cc.Twin = true
 		cc.Cfg = gen.SmallCfg(r, typ, gen.Opts{})
+		if r.Intn(3) == 0 {
+			// valid configurations with huge sizes and zero (defaulted)
+			// fields; nothing of that size is allocated before data arrives
+			big := []int{1 << 16, 1<<16 + 1, 1 << 20, 1 << 24, 1<<31 - 1, 1 << 31, 1<<31 + 1, 1<<32 - 9, 1<<32 - 8, 3 << 30, 8 << 20}
+			pickBig := func() int {
+				if r.Intn(3) == 0 {
+					return 0
+				}
+				return big[r.Intn(len(big))]
+			}
+			cc.Cfg.WindowSize = pickBig()
+			cc.Cfg.BufferSize = pickBig()
+			cc.Cfg.BlockSize = pickBig()
+			cc.Cfg.ShrinkSize = 0
+			if r.Intn(2) == 0 && cc.Cfg.BufferSize > 1 {
+				cc.Cfg.ShrinkSize = r.Intn(cc.Cfg.BufferSize)
+			}
+		}
 		// leave some fields zero so that defaults matter
 		if r.Intn(2) == 0 {
 			cc.Cfg.ShrinkSize = 0
